@@ -1,4 +1,5 @@
 """C19 - parsing cost stays polynomial: the structural preconditions (Engine G)."""
+from .. import rules_flow as RF
 from .. import rules_grammar as RG
 
 ID = "C19"
@@ -29,3 +30,4 @@ def run(ctx, rep):
     rep.run(RG.rule_recursion_fanout, ctx, rep, "Z4")
     rep.run(RG.rule_recursive_alternative_last, ctx, rep, "Z5")
     rep.require_min("Z3", 10)
+    rep.run(RF.rule_locals_defined, ctx, rep, "U1", packages=("gtwrap/interface_parser",), min_functions=3)
